@@ -35,6 +35,13 @@ def rand_head(rng, tag, big):
             hs.insert(rng.below(len(hs) + 1), (rng.choice(["Connection", "connection", "CONNECTION"]), v))
     r = AReq(method=rng.choice(STD_METHODS + EXT_METHODS), target=random_target(rng) + "?t=" + tag,
              version=rng.choice(["1.1", "1.1", "1.0"]), headers=hs)
+    if rng.chance(1, 5):
+        # a request with a body the application reads (half of them announced with Expect): the head reported AFTER
+        # the body has been asked for is still the head that was sent (the harness compares the two)
+        r.framing = "cl"
+        r.body = body_bytes(tag, rng.choice([5, 1025]))
+        if rng.chance(1, 2):
+            r.expect = rng.choice(["100-continue", "100-Continue"])
     if r.version == "1.0":
         if any(n.lower() == "connection" for n, _ in hs):
             r.version = "1.1"          # (the first Connection field decides persistence; keep the pipeline alive)
@@ -68,7 +75,7 @@ def build(rng, i, transport):
     for k in range(n):
         r = rand_head(rng, "%d.%d" % (i, k), big=(i % 3 == 0))
         stream += r.render()
-        acts.append(action_str([], respond_str(200, b"ok", True)))
+        acts.append(action_str([(None, 4096)] if r.framing == "cl" else [], respond_str(200, b"ok", True)))
         wm.append(hx(r.method))
         wu.append(hx(r.target))
         wv.append(r.version)
